@@ -304,6 +304,22 @@ func runBody(raw json.RawMessage) (interface{}, error) {
 	return out, nil
 }
 
+// genAcceptEncoding composes an Accept-Encoding value from the grammar of RFC 9110 §12.5.3: one to four elements, each
+// a coding (gzip in several spellings, the wildcard, other codings, an empty element) with or without parameters (weights
+// zero and non-zero in the spellings the qvalue grammar allows, a second q, another parameter in front, blanks), in
+// any order — so that which element decides and what counts as a refusal are both exercised.
+func genAcceptEncoding(r *hx.Rand) string {
+	codings := []string{"gzip", "gzip", "gzip", "*", "*", "br", "identity", "deflate", "x-gzip", "GZIP", " gzip", "gzip ", "", "zstd"}
+	params := []string{"", "", "", ";q=0", ";q=0", ";q=0.0", ";q=0.000", ";q=1", ";q=1.0", ";q=0.5", ";q=0.001", "; q=0", ";q= 0", ";Q=0",
+		";q=1;q=0", ";q=0;q=1", ";x=1;q=0", ";x=0", ";q=", ";q=0e0", ";q=00", ";q=-0", ";q=.0", ";q"}
+	n := r.Range(1, 4)
+	var el []string
+	for i := 0; i < n; i++ {
+		el = append(el, r.Pick(codings)+r.Pick(params))
+	}
+	return strings.TrimSpace(strings.Join(el, r.Pick([]string{",", ", ", " , "})))
+}
+
 func init() {
 	methods := []string{"GET", "POST", "POST", "PUT", "PATCH", "DELETE", "HEAD", "OPTIONS", "FOO"}
 	statuses := []int{200, 200, 201, 202, 204, 206, 301, 302, 304, 400, 401, 403, 404, 404, 418, 429, 500, 502, 503, 503, 599, 299, 999}
@@ -344,6 +360,13 @@ func init() {
 			bodyIn{Method: "GET", RStatus: 200, RLen: 300, Gzip: true, AE: "gzip, br", RCE: []string{"deflate", "br"}, RHdr: [][2]string{{"Content-Type", "text/plain"}}},
 			// recorded finding (content-encoding-first-line-empty): the gzip layer looks at the first Content-Encoding line only
 			bodyIn{Method: "GET", RStatus: 200, RLen: 300, Gzip: true, AE: "gzip, br", RCE: []string{"", "br"}, RHdr: [][2]string{{"Content-Type", "text/plain"}}},
+			// which Accept-Encoding element decides: a wildcard beside an explicit refusal of gzip is a refusal
+			bodyIn{Method: "GET", RStatus: 200, RLen: 3000, Gzip: true, AE: "*, gzip;q=0", RHdr: [][2]string{{"Content-Type", "text/plain"}}},
+			bodyIn{Method: "GET", RStatus: 200, RLen: 3000, Gzip: true, AE: "br;q=1.0, *;q=0.5, gzip;q=0", RHdr: [][2]string{{"Content-Type", "text/plain"}}},
+			bodyIn{Method: "GET", RStatus: 200, RLen: 3000, Gzip: true, AE: "gzip;q=0, *", RHdr: [][2]string{{"Content-Type", "text/plain"}}},
+			bodyIn{Method: "GET", RStatus: 200, RLen: 3000, Gzip: true, AE: "*", RHdr: [][2]string{{"Content-Type", "text/plain"}}},
+			bodyIn{Method: "GET", RStatus: 200, RLen: 3000, Gzip: true, AE: "identity, gzip;x=1;q=0.5", RHdr: [][2]string{{"Content-Type", "text/plain"}}},
+			bodyIn{Method: "GET", RStatus: 200, RLen: 3000, Gzip: true, AE: "gzip;q=1;q=0, br", RHdr: [][2]string{{"Content-Type", "text/plain"}}},
 			// trailer fields of the reply, with and without the gzip layer
 			bodyIn{Method: "POST", ReqLen: 10, ReqSeed: 6, Chunks: []int{4}, RStatus: 200, RLen: 300, RTrailer: [][2]string{{"X-T", "1"}, {"X-T", "2"}}},
 			bodyIn{Method: "GET", RStatus: 200, RLen: 300, RChunked: true, RTrailer: [][2]string{{"X-T", "1"}}, Gzip: true, AE: "gzip", RHdr: [][2]string{{"Content-Type", "text/plain"}}},
@@ -397,6 +420,9 @@ func init() {
 			in.Expect = in.ReqLen > 0 && r.Chance(1, 4)
 			in.Gzip = r.Chance(1, 3)
 			in.AE = r.Pick([]string{"", "", "gzip", "gzip", "identity", "br, gzip;q=0.5", "gzip;q=0"})
+			if r.Chance(1, 3) || (in.Gzip && r.Chance(1, 3)) {
+				in.AE = genAcceptEncoding(r)
+			}
 			if in.Gzip && r.Chance(1, 2) {
 				in.RHdr = append(in.RHdr, [2]string{"Content-Type", r.Pick([]string{"text/plain", "text/html; charset=utf-8"})})
 			}
